@@ -37,19 +37,21 @@ def run(chk, tier):
         states, bad, explained = oracle.compare(chk, binp, progs, wd, "l2", DEVS, "MiniJS L2 (generators)")
     # the same programs with every yield moved into a deeper expression position (array / object literal, call argument, template,
     # conditional, comma, arrow call): the specified behaviour is unchanged
-    with phase(chk, "goja-yield-forms"):
-        got2 = oracle.goja_run(binp, progs, wd, "yf", variant="yform")
-        want2 = oracle.LAST_WANT
-        nbad = 0
-        for p in progs:
-            if not oracle.agree(p, want2[p["id"]], got2[p["id"]]):
-                nbad += 1
-                g = got2[p["id"]]
-                chk.violation("MiniJS L2 (generators, yield inside expressions): program %d: specified log=%s %s/%s; goja log=%s %s/%s %s" % (
-                    p["id"], want2[p["id"]]["log"], want2[p["id"]]["ty"], want2[p["id"]]["v"], g["log"], g.get("ty"), g.get("v"),
-                    (g.get("err") or g.get("panic") or "")[:200]),
-                    {"module": "MiniJS", "variant": "yform", "program": p, "source": mjgen.print_js(p, variant="yform"), "want": want2[p["id"]], "got": g})
-        chk.add("yield_form_runs", len(progs))
+    want2 = oracle.LAST_WANT
+    # "scopes": every block of the body declares a block-scoped variable captured by a closure, and every logged number checks that all
+    # enclosing blocks' variables are seen with their own values (suspension, resumption and return() / throw() into a finally block
+    # must restore the lexical environment of the code that runs next)
+    for variant, label, counter in [("yform", "yield inside expressions", "yield_form_runs"), ("scopes", "captured block scopes", "block_scope_runs")]:
+        with phase(chk, "goja-" + variant):
+            got2 = oracle.goja_run(binp, progs, wd, variant[:2], variant=variant)
+            for p in progs:
+                if not oracle.agree(p, want2[p["id"]], got2[p["id"]]):
+                    g = got2[p["id"]]
+                    chk.violation("MiniJS L2 (generators, %s): program %d: specified log=%s %s/%s; goja log=%s %s/%s %s" % (
+                        label, p["id"], want2[p["id"]]["log"], want2[p["id"]]["ty"], want2[p["id"]]["v"], g["log"], g.get("ty"), g.get("v"),
+                        (g.get("err") or g.get("panic") or "")[:200]),
+                        {"module": "MiniJS", "variant": variant, "program": p, "source": mjgen.print_js(p, variant=variant), "want": want2[p["id"]], "got": g})
+            chk.add(counter, len(progs))
     # the same bodies as async functions: yield -> await, the driver's next(v) / throw(e) -> settlement of the awaited operand
     with phase(chk, "async-twins"):
         twins = []
